@@ -139,6 +139,7 @@ def run(ids, tier="quick", extra=""):
                 shutil.rmtree(scratch, ignore_errors=True)
         first = [l for l in out.splitlines() if l.startswith("violation") or l.startswith("HARNESS")][:1]
         meta.setdefault("detection", {})[tier] = {"check": "./check %s --tier %s" % (meta["property"], tier), "rc": rc,
+                                                  "verif_seed": os.environ.get("VERIF_SEED", "default (20261001)"),
                                                   "detected": rc == 1, "first_violation": (first[0][:400] if first else ""),
                                                   "wall_s": round(time.time() - t0, 1)}
         json.dump(meta, open(mp, "w"), indent=1)
